@@ -22,9 +22,23 @@ Suppressions:
 """
 
 import ast
+from collections.abc import Iterator
 from dataclasses import dataclass
 
 from .constants import STRING_VARIABLE_PATTERNS
+
+
+_SCOPE_NODES = (ast.FunctionDef, ast.AsyncFunctionDef)
+
+
+def _walk_scope(scope: ast.AST) -> Iterator[ast.AST]:
+    """Yield the nodes of one scope: nested function bodies are scopes of their own."""
+    pending = list(ast.iter_child_nodes(scope))
+    while pending:
+        node = pending.pop()
+        yield node
+        if not isinstance(node, _SCOPE_NODES):
+            pending.extend(ast.iter_child_nodes(node))
 
 
 @dataclass
@@ -73,7 +87,7 @@ class PythonStringConcatAnalyzer:
         Args:
             tree: AST to analyze
         """
-        for node in ast.walk(tree):
+        for node in _walk_scope(tree):
             self._process_assignment_node(node)
 
     def _process_assignment_node(self, node: ast.AST) -> None:
@@ -168,8 +182,30 @@ class PythonStringConcatAnalyzer:
 
         self._check_for_string_concat(node, violations, current_loop, current_reset_vars)
 
+        if isinstance(node, _SCOPE_NODES):
+            self._find_concat_in_function(node, violations, current_loop, current_reset_vars)
+            return
+
         for child in ast.iter_child_nodes(node):
             self._find_concat_in_loops(child, violations, current_loop, current_reset_vars)
+
+    def _find_concat_in_function(
+        self,
+        node: ast.AST,
+        violations: list[StringConcatViolation],
+        in_loop: str | None,
+        reset_vars: set[str],
+    ) -> None:
+        """Analyse a function body with the variable types of its own scope.
+
+        A name initialised as a list in one function says nothing about the same name in another.
+        """
+        saved = (self._string_variables, self._non_string_variables)
+        self._string_variables, self._non_string_variables = set(), set()
+        self._identify_string_variables(node)
+        for child in ast.iter_child_nodes(node):
+            self._find_concat_in_loops(child, violations, in_loop, reset_vars)
+        self._string_variables, self._non_string_variables = saved
 
     def _get_loop_type(self, node: ast.AST) -> str | None:
         """Get the loop type if node is a loop, else None."""
